@@ -870,14 +870,19 @@ func controllingConds(in ssa.Instruction) []ssa.Value {
 		if !ok {
 			continue
 		}
-		// the instruction's block is reached through exactly one successor of d
-		through := 0
+		// the instruction's block is reached through exactly one successor of d — and not from
+		// the other one as well (the join after an `if` without else is a successor of the test,
+		// but both branches arrive there)
+		through, reachable := 0, 0
 		for _, s := range d.Succs {
 			if s == b || s.Dominates(b) {
 				through++
 			}
+			if s == b || blockReachesAvoiding(s, b, d) {
+				reachable++
+			}
 		}
-		if through == 1 {
+		if through == 1 && reachable < len(d.Succs) {
 			out = append(out, v)
 		}
 	}
@@ -1011,4 +1016,27 @@ func modifiesLookedUpEntry(al *ssa.Alloc, isCacheMap func(ssa.Value) bool) *ssa.
 		}
 	}
 	return nil
+}
+
+// blockReachesAvoiding: to is reachable from from without passing through avoid (so that going
+// round an enclosing loop back through the test itself does not count).
+func blockReachesAvoiding(from, to, avoid *ssa.BasicBlock) bool {
+	seen := map[*ssa.BasicBlock]bool{avoid: true}
+	var walk func(b *ssa.BasicBlock) bool
+	walk = func(b *ssa.BasicBlock) bool {
+		if b == to {
+			return true
+		}
+		if seen[b] {
+			return false
+		}
+		seen[b] = true
+		for _, s := range b.Succs {
+			if walk(s) {
+				return true
+			}
+		}
+		return false
+	}
+	return walk(from)
 }
